@@ -73,6 +73,15 @@ const KEYS: &[&str] = &[
     "a", "b", "c", "x", "y", "name", "weights", "model_name", "origin_x", "abc", "k\"q", "é", "_ignore", "grid", "search",
 ];
 
+/// top-level field names that merely CONTAIN the section's name: every one of them is an "other field of
+/// the original" and has to be in every generated query (a plugin that drops the section by a text test
+/// on the key, instead of by the key, loses them)
+const NEAR_GRID: &[&str] = &["grid_search_id", "my_grid_search", "grid_searches", "xgrid_searchx", "grid_search ", "Grid_search", "grid_search.notes"];
+
+fn other_field_name(rng: &mut Rng) -> String {
+    if rng.below(4) == 0 { rng.pick(NEAR_GRID).to_string() } else { rng.pick(KEYS).to_string() }
+}
+
 fn variant(e: &InputPluginError) -> &'static str {
     match e {
         InputPluginError::BuildFailed(_) => "BuildFailed",
@@ -549,12 +558,12 @@ fn grid_query(rng: &mut Rng, spec: &GridSpec) -> (Value, String) {
     }
     let mut q = Map::new();
     for j in 0..spec.before {
-        let k = if spec.fresh { format!("f{}", j) } else { rng.pick(KEYS).to_string() };
+        let k = if spec.fresh { format!("f{}", j) } else { other_field_name(rng) };
         q.insert(k, value(rng, 2));
     }
     q.insert(GRID.to_string(), Value::Object(sec));
     for j in 0..spec.after {
-        let k = if spec.fresh { format!("g{}", j) } else { rng.pick(KEYS).to_string() };
+        let k = if spec.fresh { format!("g{}", j) } else { other_field_name(rng) };
         if k != GRID {
             q.insert(k, value(rng, 2));
         }
